@@ -28,7 +28,8 @@ ASSUMPTIONS = [
     "at most one LICENSES/ file per identifier (two providers abort the tool; outside the statement)",
 ]
 
-USES = ["unused", "alone", "plus", "and", "or", "paren", "two-files", "absorb-and", "absorb-or"]
+# ('both-forms': one file uses the identifier with and without the trailing '+')
+USES = ["unused", "alone", "plus", "and", "or", "paren", "two-files", "absorb-and", "absorb-or", "both-forms"]
 PROVS = ["absent", "txt", "md", "noext", "subdir", "plus-txt", "txt+license", "linked-subdir"]
 SOURCES = ["header", "dotlicense", "global"]
 FILLER = "0BSD"  # partner identifier for compound expressions, always provided
@@ -112,12 +113,12 @@ def build(case):
             if is_exc:
                 base = f"{FILLER} WITH {ident}"
                 expr = {"alone": base, "plus": f"{FILLER}+ WITH {ident}", "and": f"{base} AND MIT", "or": f"MIT OR {base}",
-                        "paren": f"({base}) AND MIT", "two-files": base,
+                        "paren": f"({base}) AND MIT", "two-files": base, "both-forms": f"{FILLER}+ WITH {ident} OR {base}",
                         # boolean absorption would make the identifier disappear; it is used all the same
                         "absorb-and": f"MIT AND (MIT OR {base})", "absorb-or": f"MIT OR (MIT AND {base})"}[u]
             else:
                 expr = {"alone": ident, "plus": ident + "+", "and": f"{ident} AND {FILLER}", "or": f"{FILLER} OR {ident}",
-                        "paren": f"({ident} OR {FILLER}) AND MIT", "two-files": ident,
+                        "paren": f"({ident} OR {FILLER}) AND MIT", "two-files": ident, "both-forms": f"{ident}+ OR {ident}",
                         "absorb-and": f"{FILLER} AND ({FILLER} OR {ident})", "absorb-or": f"{FILLER} OR ({FILLER} AND {ident})"}[u]
             add_file(f"src/f{k}.py", expr, t["src"])
             if u == "two-files":
